@@ -22,6 +22,8 @@ macro_rules! dispatch {
       "C04" => $f::<props::c04::C04>($($arg),*),
       "C05" => $f::<props::c05::C05>($($arg),*),
       "C06" => $f::<props::c06::C06>($($arg),*),
+      "C07" => $f::<props::c07::C07>($($arg),*),
+      "C10" => $f::<props::c10::C10>($($arg),*),
       "C11" => $f::<props::c11::C11>($($arg),*),
       "C12" => $f::<props::c12::C12>($($arg),*),
       "C13" => $f::<props::c13::C13>($($arg),*),
@@ -41,6 +43,7 @@ fn main() {
   if args.len() < 2 { eprintln!("usage: mechcheck run|worker|replay|probe ..."); std::process::exit(3); }
   match args[1].as_str() {
     "probe" => probe(),
+    "docprobe" => docprobe(),
     "compileprobe" => compileprobe(),
     "fsmprobe" => fsmprobe(),
     "run" => {
@@ -135,6 +138,28 @@ fn compileprobe() {
         match ParsedProgram::from_bytes(&b) {
           Err(e) => println!("load error {}", e.kind_name()),
           Ok(p) => { let mut f = mech_interpreter::Interpreter::new(1); match std::panic::catch_unwind(std::panic::AssertUnwindSafe(|| f.run_program(&p))) { Err(e) => println!("run panic {}", mech::panic_msg(e)), Ok(Err(e)) => println!("run error {}", e.kind_name()), Ok(Ok(v)) => println!("run = {}", rval::from_value(&v).show()) } }
+        }
+      }
+    }
+  }).unwrap();
+  h.join().unwrap();
+}
+
+fn docprobe() {
+  use std::io::Read;
+  mech::install_quiet_panic_hook();
+  let mut s = String::new();
+  std::io::stdin().read_to_string(&mut s).unwrap();
+  let h = std::thread::Builder::new().stack_size(256 << 20).spawn(move || {
+    for snip in s.split("\n----\n") {
+      let snip = snip.trim_matches('\n');
+      if snip.is_empty() { continue; }
+      match mech::run_document(snip) {
+        Err(e) => println!("DOC {:?}\n  => {}", snip.chars().take(80).collect::<String>(), e),
+        Ok((kinds, out, main, named)) => {
+          println!("DOC {:?}\n  kinds: {:?}\n  => {}", snip.chars().take(80).collect::<String>(), kinds, out.show());
+          println!("  main: {}", main.iter().map(|(k, v)| format!("{}={}", k, v.show())).collect::<Vec<_>>().join("; "));
+          for (id, sn) in named { println!("  fence {}: {}", id, sn.iter().map(|(k, v)| format!("{}={}", k, v.show())).collect::<Vec<_>>().join("; ")); }
         }
       }
     }
